@@ -468,6 +468,17 @@ func registerIntrinsics(e *Engine) {
 		return len(buf)
 	}
 	in["(*strings.Builder).Grow"] = func(fr *frame, a []value) value { return nil }
+	in["(*strings.Builder).copyCheck"] = func(fr *frame, a []value) value { return nil }
+	in["internal/abi.NoEscape"] = func(fr *frame, a []value) value { return a[0] }
+	in["(*strings.Builder).Write"] = func(fr *frame, a []value) value {
+		bs, _ := a[1].([]value)
+		ts := make([]*smt.Term, len(bs))
+		for k, b := range bs {
+			ts[k] = termOf(b)
+		}
+		sbAppend(fr, a, ts)
+		return tuple{len(ts), iface{}}
+	}
 	in["(*strings.Builder).Reset"] = func(fr *frame, a []value) value { *sbBuf(a) = []value(nil); return nil }
 
 	// ---------------- strconv ----------------
